@@ -8,6 +8,8 @@ CONSTANTS
  SubjSel = {"same"}
  Spells = {"dig"}
  Dopts = {"check"}
+ Inits <- InitsMC0
+ NAs <- NAsNone
  MaxOps = 3
  MaxConc = 2
  SameSubject = TRUE
